@@ -243,3 +243,218 @@ pub fn observe_with_rtree(rules: &str, data: &str) -> J {
     }
     obs
 }
+
+// ---------------------------------------------------------------- full tree / report (C09, C10)
+
+fn node12(k: &str, st: J, n: J, vk: J, msg: J, ch: Vec<J>) -> J {
+    json!({"k":k,"st":st,"n":n,"vk":vk,"msg":msg,"fq":"","fp":[],"fv":[],"tq":[],"tp":[],"tv":[],"ch":ch})
+}
+
+fn qr_parts(j: &J) -> (J, J, J, bool) {
+    // (kind, path, [value], in_universe)
+    if let Some(r) = j.get("Resolved").or_else(|| j.get("Literal")) {
+        let kind = if j.get("Literal").is_some() { "lit" } else { "res" };
+        let v = val::from_reported_json(&r["value"]);
+        (json!(kind), val::path_segments(r["path"].as_str().unwrap_or("")), json!(v.iter().collect::<Vec<_>>()), v.is_some())
+    } else if let Some(u) = j.get("UnResolved") {
+        let t = &u["traversed_to"];
+        let v = val::from_reported_json(&t["value"]);
+        (json!("unres"), val::path_segments(t["path"].as_str().unwrap_or("")), json!(v.iter().collect::<Vec<_>>()), v.is_some())
+    } else {
+        (json!("?"), json!([]), json!([]), false)
+    }
+}
+
+fn opt_str(j: &J) -> J {
+    match j.as_str() {
+        Some(s) => json!(s),
+        None => json!(""),
+    }
+}
+
+/// The record tree with the details of the value checks (12-field nodes, the shape of the
+/// specification's nodes).  Filter records and the children of value checks are dropped.
+/// Second result: false when some reported value falls outside the abstract universe.
+pub fn full_tree(rec: &J, exact: &mut bool) -> Option<J> {
+    let cont = rec.get("container")?;
+    let (kind, payload) = cont.as_object()?.iter().next()?;
+    if kind == "Filter" {
+        return None;
+    }
+    if kind == "ClauseValueCheck" {
+        if payload.as_str().is_some() {
+            return Some(node12("Value", json!("PASS"), json!(""), json!("Success"), json!(""), vec![]));
+        }
+        let (vk, p) = payload.as_object()?.iter().next()?;
+        let mut n = node12("Value", json!("FAIL"), json!(""), json!(vk), json!(""), vec![]);
+        let mut set_from = |n: &mut J, from: &J, exact: &mut bool| {
+            let (k, path, v, ok) = qr_parts(from);
+            n["fq"] = k;
+            n["fp"] = path;
+            n["fv"] = v;
+            *exact &= ok;
+        };
+        let mut tos: Vec<&J> = Vec::new();
+        match vk.as_str() {
+            "Comparison" => {
+                set_from(&mut n, &p["from"], exact);
+                if !p["to"].is_null() {
+                    tos.push(&p["to"]);
+                }
+                n["msg"] = opt_str(&p["custom_message"]);
+            }
+            "InComparison" => {
+                set_from(&mut n, &p["from"], exact);
+                for t in p["to"].as_array()? {
+                    tos.push(t);
+                }
+                n["msg"] = opt_str(&p["custom_message"]);
+            }
+            "Unary" => {
+                set_from(&mut n, &p["value"]["from"], exact);
+                n["msg"] = opt_str(&p["value"]["custom_message"]);
+            }
+            "MissingBlockValue" => {
+                set_from(&mut n, &p["from"], exact);
+                n["msg"] = opt_str(&p["custom_message"]);
+            }
+            "DependentRule" => {
+                n["msg"] = opt_str(&p["custom_message"]);
+            }
+            "NoValueForEmptyCheck" => {
+                n["msg"] = opt_str(p);
+            }
+            _ => {}
+        }
+        let mut tq = Vec::new();
+        let mut tp = Vec::new();
+        let mut tv = Vec::new();
+        for t in tos {
+            let (k, path, v, ok) = qr_parts(t);
+            tq.push(if k == "unres" { json!("unres") } else { json!("res") });
+            tp.push(path);
+            tv.push(v.as_array().and_then(|a| a.first().cloned()).unwrap_or(json!({"t":"?"})));
+            *exact &= ok;
+        }
+        n["tq"] = J::Array(tq);
+        n["tp"] = J::Array(tp);
+        n["tv"] = J::Array(tv);
+        return Some(n);
+    }
+    let kids: Vec<J> = rec["children"].as_array().map(|a| a.iter().filter_map(|c| full_tree(c, exact)).collect()).unwrap_or_default();
+    let (k, n, msg) = match kind.as_str() {
+        "FileCheck" => ("File", json!(""), json!("")),
+        "RuleCheck" => ("Rule", payload["name"].clone(), opt_str(&payload["message"])),
+        "RuleCondition" => ("RuleCond", json!(""), json!("")),
+        "TypeCheck" => ("TypeCheck", payload["type_name"].clone(), json!("")),
+        "TypeCondition" => ("TypeCond", json!(""), json!("")),
+        "TypeBlock" => ("TypeBlock", json!(""), json!("")),
+        "WhenCheck" => ("When", json!(""), json!("")),
+        "WhenCondition" => ("WhenCond", json!(""), json!("")),
+        "Disjunction" => ("Disj", json!(""), json!("")),
+        "BlockGuardCheck" => ("Block", json!(""), json!("")),
+        "GuardClauseBlockCheck" => ("Clause", json!(""), json!("")),
+        _ => ("?", json!(""), json!("")),
+    };
+    Some(node12(k, status_of(payload), n, json!(""), msg, kids))
+}
+
+fn item(k: &str, n: J, msg: J, ck: &str, fp: J, fv: J, tp: J, tv: J, ch: Vec<J>) -> J {
+    json!({"k":k,"n":n,"msg":msg,"ck":ck,"fp":fp,"fv":fv,"tp":tp,"tv":tv,"ch":ch})
+}
+
+fn pv(j: &J, exact: &mut bool) -> (J, J) {
+    let v = val::from_reported_json(&j["value"]);
+    *exact &= v.is_some();
+    (val::path_segments(j["path"].as_str().unwrap_or("")), json!(v.iter().collect::<Vec<_>>()))
+}
+
+/// FileReport JSON (run_checks verbose=false / validate --structured) -> abstract report
+pub fn report_items(items: &J, exact: &mut bool) -> Vec<J> {
+    let mut out = Vec::new();
+    for it in items.as_array().map(|a| a.as_slice()).unwrap_or(&[]) {
+        let (kind, p) = match it.as_object().and_then(|o| o.iter().next()) {
+            Some(x) => x,
+            None => continue,
+        };
+        match kind.as_str() {
+            "Rule" => out.push(item("rule", p["name"].clone(), opt_str(&p["messages"]["custom_message"]), "", json!([]), json!([]), json!([]), json!([]), report_items(&p["checks"], exact))),
+            "Disjunctions" => out.push(item("disj", json!(""), json!(""), "", json!([]), json!([]), json!([]), json!([]), report_items(&p["checks"], exact))),
+            "Block" => {
+                if p["unresolved"].is_null() {
+                    out.push(item("block", json!(""), opt_str(&p["messages"]["custom_message"]), "none", json!([]), json!([]), json!([]), json!([]), vec![]));
+                } else {
+                    let (fp, fv) = pv(&p["unresolved"]["traversed_to"], exact);
+                    out.push(item("block", json!(""), opt_str(&p["messages"]["custom_message"]), "unres", fp, fv, json!([]), json!([]), vec![]));
+                }
+            }
+            "Clause" => {
+                let (ub, c) = p.as_object().and_then(|o| o.iter().next()).unwrap();
+                let msg = opt_str(&c["messages"]["custom_message"]);
+                let (ck, body) = c["check"].as_object().and_then(|o| o.iter().next()).unwrap();
+                match (ub.as_str(), ck.as_str()) {
+                    ("Binary", "Resolved") => {
+                        let (fp, fv) = pv(&body["from"], exact);
+                        let (tp, tv) = pv(&body["to"], exact);
+                        out.push(item("check", json!(""), msg, "cmp", fp, fv, json!([tp]), tv, vec![]));
+                    }
+                    ("Binary", "InResolved") => {
+                        let (fp, fv) = pv(&body["from"], exact);
+                        let mut tps = Vec::new();
+                        let mut tvs = Vec::new();
+                        for t in body["to"].as_array().unwrap() {
+                            let (tp, tv) = pv(t, exact);
+                            tps.push(tp);
+                            tvs.push(tv.as_array().and_then(|a| a.first().cloned()).unwrap_or(json!({"t":"?"})));
+                        }
+                        out.push(item("check", json!(""), msg, "in", fp, fv, J::Array(tps), J::Array(tvs), vec![]));
+                    }
+                    (_, "UnResolved") => {
+                        let (fp, fv) = pv(&body["value"]["traversed_to"], exact);
+                        out.push(item("check", json!(""), msg, "unres", fp, fv, json!([]), json!([]), vec![]));
+                    }
+                    ("Unary", "Resolved") => {
+                        let (fp, fv) = pv(&body["value"], exact);
+                        out.push(item("check", json!(""), msg, "unary", fp, fv, json!([]), json!([]), vec![]));
+                    }
+                    (_, "UnResolvedContext") => out.push(item("check", json!(""), msg, "ctx", json!([]), json!([]), json!([]), json!([]), vec![])),
+                    _ => out.push(item("?", json!(""), msg, "?", json!([]), json!([]), json!([]), json!([]), vec![])),
+                }
+            }
+            _ => out.push(item("?", json!(""), json!(""), "?", json!([]), json!([]), json!([]), json!([]), vec![])),
+        }
+    }
+    out
+}
+
+/// observation for C09/C10: status tree + full tree + the structured report of the same inputs
+pub fn observe_full(rules: &str, data: &str) -> J {
+    let mut obs = observe(rules, data, false);
+    if obs["kind"] != "ok" {
+        return obs;
+    }
+    let t = status_tree(&obs["tree"]);
+    obs["tree"] = t;
+    let mut exact = true;
+    if let Ok(Ok(s)) = run_checks_raw(rules, data, true) {
+        if let Ok(rec) = serde_json::from_str::<J>(&s) {
+            if let Some(t) = full_tree(&rec, &mut exact) {
+                obs["ftree"] = t;
+            }
+        }
+    }
+    match run_checks_raw(rules, data, false) {
+        Err(p) => obs["report"] = json!({"kind":"panic","msg":p}),
+        Ok(Err(e)) => obs["report"] = json!({"kind":"err","msg":e}),
+        Ok(Ok(s)) => match serde_json::from_str::<J>(&s) {
+            Err(e) => obs["report"] = json!({"kind":"badjson","msg":e.to_string(),"len":s.len()}),
+            Ok(j) => {
+                let nc = report_items(&j["not_compliant"], &mut exact);
+                obs["report"] = json!({"kind":"ok","status":j["status"],"compliant":j["compliant"],
+                                        "na":j["not_applicable"],"nc":nc});
+            }
+        },
+    }
+    obs["exact"] = json!(exact);
+    obs
+}
